@@ -5,10 +5,12 @@ package schemahelper
 
 import (
 	"github.com/hashicorp/hcl-lang/schema"
+	"github.com/hashicorp/hcl-lang/verifhook"
 	"github.com/hashicorp/hcl/v2"
 )
 
 func MergeBlockBodySchemas(block *hcl.Block, blockSchema *schema.BlockSchema) (*schema.BodySchema, LookupResult) {
+	verifhook.At("merge.enter")
 	mergedSchema := &schema.BodySchema{}
 	if blockSchema.Body != nil {
 		mergedSchema = blockSchema.Body.Copy()
@@ -26,6 +28,7 @@ func MergeBlockBodySchemas(block *hcl.Block, blockSchema *schema.BlockSchema) (*
 		mergedSchema.ImpliedOrigins = make([]schema.ImpliedOrigin, 0)
 	}
 
+	verifhook.At("merge.copied")
 	depSchema, _, result := NewBlockSchema(blockSchema).DependentBodySchema(block)
 	if result == LookupSuccessful || result == LookupPartiallySuccessful {
 		for name, attr := range depSchema.Attributes {
@@ -83,5 +86,6 @@ func MergeBlockBodySchemas(block *hcl.Block, blockSchema *schema.BlockSchema) (*
 		mergedSchema.Blocks["dynamic"] = buildDynamicBlockSchema(mergedSchema, mergedSchema)
 	}
 
+	verifhook.At("merge.exit")
 	return mergedSchema, result
 }
